@@ -375,7 +375,7 @@ func judgeHTTP(cs Case, o httpObs) (clause, feat, why string) {
 			return "204-without-store", base + ",writer=" + cs.Writer, "204 although the writer was never asked"
 		}
 		got, exp := sortPts(o.Points), sortPts(want)
-		if fmt.Sprint(trimPts(got)) != fmt.Sprint(trimPts(exp)) {
+		if fmt.Sprint(got) != fmt.Sprint(exp) {
 			return "204-points-differ", base + ",prec=" + cs.Precision, fmt.Sprintf("204 but writer received %v, body holds %v", trimPts(got), trimPts(exp))
 		}
 		return
@@ -404,13 +404,19 @@ func judgeHTTP(cs Case, o httpObs) (clause, feat, why string) {
 	return
 }
 
-func trimPts(p []recPoint) []recPoint {
-	q := make([]recPoint, len(p))
+// trimPts renders points for messages: long field values are shortened, and a timestamp that can only be the
+// server's wall clock (a line that lost its timestamp) is shown as "wallclock" so that observations stay deterministic.
+func trimPts(p []recPoint) []string {
+	q := make([]string, len(p))
 	for i, x := range p {
 		if len(x.Fields) > 20 {
 			x.Fields = x.Fields[:20] + fmt.Sprintf("…(%d)", len(x.Fields))
 		}
-		q[i] = x
+		ts := strconv.FormatInt(x.TS, 10)
+		if x.TS > 1e15 || x.TS < 0 {
+			ts = "wallclock"
+		}
+		q[i] = fmt.Sprintf("{%s %s %s}", x.Key, x.Fields, ts)
 	}
 	return q
 }
